@@ -1,6 +1,187 @@
-/-! Driver entry for property C09 (stub: not implemented yet). -/
-namespace HeartwoodModel.Driver.C09
+import HeartwoodModel.Model.CobCache
+import HeartwoodModel.Driver.Util
+/-! Driver entry for C09.
 
-def run (_args : List String) : String := "unimplemented"
+A case is the annotated script written by the harness (see `harness/c09/src/main.rs`). The driver reads
+the annotations (`@ok:K:id=obj`, `@fail`, `@rm:K:id=obj|-`, `@f:changes|refs`, `@pool:ids`) and the cache
+maintenance tokens (`w.P`, `iw.I`, `wa`, `iwa`); the other script tokens only say which Rust API produced
+the annotation that follows them. For every `@pool` it prints the answers of every query on the model's
+cache and on the model's truth: `<cached>` or `<cached>!<direct>`. -/
+namespace HeartwoodModel.Driver.C09
+open HeartwoodModel.CobCache HeartwoodModel.Driver.Util
+
+def ids? (s : String) : List String := if s == "-" then [] else splitOn s '+'
+
+def status? (s : String) : Option PStatus := PStatus.ofName s
+
+def review? (s : String) : Option (String × Review) :=
+  match splitOn s '/' with
+  | [actor, vid, cs] => some (actor, { id := vid, comments := ids? cs })
+  | _ => none
+
+def rev? (s : String) : Option (Id × Option Revision) :=
+  match splitOn s '~' with
+  | [rid, "!"] => some (rid, none)
+  | [rid, dg, cs, rvs] => do
+    let reviews ← if rvs == "-" then some [] else (splitOn rvs '^').mapM review?
+    some (rid, some { digest := dg, discussion := ids? cs, reviews })
+  | _ => none
+
+def patch? (s : String) : Option Patch :=
+  match splitOn s '.' with
+  | [st, extra, dg, revs] => do
+    let status ← status? st
+    let revisions ← if revs == "-" then some [] else (splitOn revs ';').mapM rev?
+    some { state := { status, extra }, revisions, digest := dg }
+  | _ => none
+
+def istate? (s : String) : Option IState :=
+  if s == "open" then some .open else if s == "solved" then some (.closed .solved)
+  else if s == "other" then some (.closed .other) else none
+
+def issue? (s : String) : Option Issue :=
+  match splitOn s '.' with
+  | [st, dg, cs] => (istate? st).map fun state => { state, comments := ids? cs, digest := dg }
+  | _ => none
+
+/-- `name=obj` or `name=-`. -/
+def binding? {α : Type} (parse : String → Option α) (s : String) : Option (Id × Option α) :=
+  match splitOn s '=' with
+  | [n, "-"] => some (n, none)
+  | [n, o] => (parse o).map fun v => (n, some v)
+  | _ => none
+
+structure St where
+  patches : Store Patch := Store.empty
+  issues : Store Issue := Store.empty
+  outs : List String := []
+
+def pstep (s : St) (op : Op Patch) : St := { s with patches := s.patches.step stdPatchCodec.enc op }
+def istep (s : St) (op : Op Issue) : St := { s with issues := s.issues.step stdIssueCodec.enc op }
+
+/-! ### printing -/
+
+def showRes {α : Type} (f : α → String) : Res α → String
+  | .ok a => f a
+  | .err => "E"
+  | .panic => "P"
+
+def cmp (c d : String) : String := if c == d then c else c ++ "!" ++ d
+
+def showOpt {α : Type} (f : α → String) : Option α → String
+  | none => "-"
+  | some a => f a
+
+def showTable {α : Type} (dg : α → String) (t : Table α) : String :=
+  if t.isEmpty then "-" else joinWith "," (t.map fun kv => kv.1 ++ "#" ++ dg kv.2)
+
+def showPCounts (c : PatchCounts) : String :=
+  joinWith "," [toString c.open_, toString c.draft, toString c.archived, toString c.merged]
+
+def showICounts (c : IssueCounts) : String := joinWith "," [toString c.open_, toString c.closed]
+
+def showFind (r : Id × Patch × Revision) (rid : Id) : String :=
+  r.1 ++ "/" ++ rid ++ "/" ++ r.2.2.digest ++ "#" ++ r.2.1.digest
+
+def query (s : St) (pool : List Id) : String :=
+  let pc := stdPatchCodec
+  let ic := stdIssueCodec
+  let ct := s.patches.cache
+  let tt := s.patches.truth
+  let ict := s.issues.cache
+  let itt := s.issues.truth
+  let g := pool.map fun n =>
+    n ++ "=" ++ cmp (showRes (showOpt (·.digest)) (cachedGet pc ct n)) (showOpt (·.digest) (directGet tt n))
+  let l := cmp (showRes (showTable (·.digest)) (cachedList pc ct)) (showTable (·.digest) (directList tt))
+  let sts := [PStatus.draft, .open, .archived, .merged].map fun st =>
+    "S" ++ st.name ++ ":" ++ cmp (showRes (showTable (·.digest)) (cachedListByStatus pc ct st))
+      (showTable (·.digest) (directListByStatus tt st))
+  let c := cmp (showRes showPCounts (cachedCounts pc List.head? ct)) (showPCounts (directCounts tt))
+  let f := pool.map fun n =>
+    n ++ "=" ++ cmp (showRes (showOpt (showFind · n)) (cachedFindByRevision pc ct n))
+      (showOpt (showFind · n) (directFindByRevision tt n))
+  let ig := pool.map fun n =>
+    n ++ "=" ++ cmp (showRes (showOpt (·.digest)) (icachedGet ic ict n)) (showOpt (·.digest) (idirectGet itt n))
+  let il := cmp (showRes (showTable (·.digest)) (icachedList ic ict)) (showTable (·.digest) (idirectList itt))
+  let ists := [("open", IState.open), ("solved", .closed .solved), ("other", .closed .other)].map fun nf =>
+    "IS" ++ nf.1 ++ ":" ++ cmp (showRes (showTable (·.digest)) (icachedListByStatus ic ict nf.2))
+      (showTable (·.digest) (idirectListByStatus itt nf.2))
+  let icn := cmp (showRes showICounts (icachedCounts ic List.head? ict)) (showICounts (idirectCounts itt))
+  joinWith "|" (["G:" ++ joinWith "," g, "L:" ++ l] ++ sts ++ ["C:" ++ c, "F:" ++ joinWith "," f,
+    "IG:" ++ joinWith "," ig, "IL:" ++ il] ++ ists ++ ["IC:" ++ icn])
+
+/-! ### tokens -/
+
+def scriptOps : List String :=
+  ["pc", "pd", "rev", "red", "cm", "cred", "rv", "rvc", "rvred", "lc", "mg", "ed", "rm",
+   "ic", "icm", "icred", "ilc", "ied", "irm"]
+
+/-- `Kname=obj` with `K ∈ {p, i}`; returns the two kinds of bindings. -/
+def kbinding? (s : String) : Option (Sum (Id × Option Patch) (Id × Option Issue)) :=
+  if s.startsWith "p" then (binding? patch? (s.drop 1).toString).map Sum.inl
+  else if s.startsWith "i" then (binding? issue? (s.drop 1).toString).map Sum.inr
+  else none
+
+def refupd? (s : String) : Option (Bool × RefUpd) :=
+  match splitOn s ':' with
+  | [kn, k] =>
+    let skipped := k == "s"
+    if !(k == "s" || k == "c" || k == "u" || k == "d") then none
+    else if kn.startsWith "p" then some (true, { id := (kn.drop 1).toString, skipped })
+    else if kn.startsWith "i" then some (false, { id := (kn.drop 1).toString, skipped })
+    else none
+  | _ => none
+
+def stepTok (s : St) (tok : String) : Option St :=
+  if tok.startsWith "@ok:" then
+    match splitOn ((tok.drop 4).toString) ':' with
+    | ["p", b] => match binding? patch? b with
+      | some (n, some p) => some (pstep s (.write n p))
+      | _ => none
+    | ["i", b] => match binding? issue? b with
+      | some (n, some p) => some (istep s (.write n p))
+      | _ => none
+    | _ => none
+  else if tok == "@fail" then some s
+  else if tok.startsWith "@rm:" then
+    match splitOn ((tok.drop 4).toString) ':' with
+    | ["p", b] => (binding? patch? b).map fun (n, o) => pstep s (.remove n o)
+    | ["i", b] => (binding? issue? b).map fun (n, o) => istep s (.remove n o)
+    | _ => none
+  else if tok.startsWith "@f:" then
+    match splitOn ((tok.drop 3).toString) '|' with
+    | [chg, refs] => do
+      let chgs ← if chg == "-" then some [] else (splitOn chg '&').mapM kbinding?
+      let rs ← if refs == "-" then some [] else (splitOn refs ',').mapM refupd?
+      let pch := chgs.filterMap fun c => match c with | .inl x => some x | .inr _ => none
+      let ich := chgs.filterMap fun c => match c with | .inr x => some x | .inl _ => none
+      let prs := rs.filterMap fun r => if r.1 then some r.2 else none
+      let irs := rs.filterMap fun r => if r.1 then none else some r.2
+      some (istep (pstep s (.fetched pch prs)) (.fetched ich irs))
+    | _ => none
+  else if tok.startsWith "@pool:" then
+    let pool := splitOn ((tok.drop 6).toString) ','
+    some { s with outs := query s pool :: s.outs }
+  else if tok.startsWith "@" then none
+  else if tok == "q" then some s
+  else if tok == "wa" then some (pstep s .rewriteAll)
+  else if tok == "iwa" then some (istep s .rewriteAll)
+  else if tok.startsWith "w." then some (pstep s (.rewrite ((tok.drop 2).toString)))
+  else if tok.startsWith "iw." then some (istep s (.rewrite ((tok.drop 3).toString)))
+  else if tok.startsWith "f:" || tok.startsWith "f!:" then some s
+  else
+    match splitOn tok '.' with
+    | h :: _ => if scriptOps.contains h then some s else none
+    | [] => none
+
+def run (args : List String) : String :=
+  let rec go (s : St) : List String → Option St
+    | [] => some s
+    | t :: ts => match stepTok s t with
+      | some s' => go s' ts
+      | none => none
+  match go {} args with
+  | none => "bad-op"
+  | some s => if s.outs.isEmpty then "-" else joinWith " ;; " s.outs.reverse
 
 end HeartwoodModel.Driver.C09
